@@ -473,7 +473,10 @@ def pytest_sessionfinish(session, exitstatus):
                 cr = ChangeRecorder()
                 apply_all(used_changes, cr)
                 cr.virtual_write()
-                apply_all(changes[flag], cr)
+                # all changes have to be applied together,
+                # because the changes of one list/dict/call are merged into one replacement
+                cr.discard_changes()
+                apply_all(used_changes + changes[flag], cr)
 
                 any_changes = False
 
